@@ -40,8 +40,13 @@ var (
 	CfgShared3 = &seqx.Config{Name: "shared3", Writers: []int{0, 1, 0}, PC: 4}
 	CfgSharedH = &seqx.Config{Name: "sharedhash3", Writers: []int{0, 1, 0}, PC: 4, HashTie: true}
 	CfgDef2    = &seqx.Config{Name: "def2", Writers: []int{0, 1}, PC: 4}
-	CfgClk3    = &seqx.Config{Name: "clk3", Writers: []int{0, 1, 2}, PC: 4, StartClock: []int{0, 1000, 0}}
-	CfgFww3    = &seqx.Config{Name: "fww3", Writers: []int{0, 1, 2}, PC: 4, FirstWins: true}
+	// replica 1 starts a thousand ticks ahead (clock gaps), replica 2 beyond 2^53 at a value no float64 holds exactly
+	// (wall-clock nanoseconds are of that size): clock arithmetic must be integer arithmetic
+	CfgClk3 = &seqx.Config{Name: "clk3", Writers: []int{0, 1, 2}, PC: 4, StartClock: []int{0, 1000, 1<<60 + 99}}
+	// small clock gaps (replica 1 starts one tick ahead, replica 2 two): states in which the number of entries
+	// coincides with the largest clock time although the log is not a chain
+	CfgGap3 = &seqx.Config{Name: "gap3", Writers: []int{0, 1, 2}, PC: 4, StartClock: []int{0, 1, 2}}
+	CfgFww3 = &seqx.Config{Name: "fww3", Writers: []int{0, 1, 2}, PC: 4, FirstWins: true}
 	// replica 0 orders with FirstWriteWins, the writers 1 and 2 with the default: a reader whose ordering differs from the writers'
 	CfgMixSort = &seqx.Config{Name: "mixedsort3", Writers: []int{0, 1, 2}, PC: 4, SortFor: func(i int) iface.EntrySortFn {
 		if i == 0 {
@@ -62,7 +67,7 @@ var (
 var Configs = map[string]*seqx.Config{}
 
 func init() {
-	for _, c := range []*seqx.Config{CfgDef3, CfgHash3, CfgShared3, CfgSharedH, CfgDef2, CfgClk3, CfgFww3, CfgMixSort, CfgMixIO} {
+	for _, c := range []*seqx.Config{CfgDef3, CfgHash3, CfgShared3, CfgSharedH, CfgDef2, CfgClk3, CfgFww3, CfgMixSort, CfgMixIO, cfgMany8, CfgGap3} {
 		Configs[c.Name] = c
 	}
 }
